@@ -86,7 +86,8 @@ type c20Load struct {
 	Fault   string    `json:"fault"`
 	Pos     int       `json:"pos"`
 	Text    string    `json:"text"`
-	Repair  bool      `json:"repair,omitempty"` // same file as the previous (failed) consult, with good content
+	Outer   string    `json:"outer_text,omitempty"` // include: the including text
+	Repair  bool      `json:"repair,omitempty"`     // same file as the previous (failed) consult, with good content
 	OpenErr string    `json:"open_err,omitempty"`
 }
 
@@ -205,15 +206,6 @@ func c20GenText(g *kit.Lane, load int) []c20Item {
 		items = append(items, dir())
 	}
 	return items
-}
-
-func c20Render(items []c20Item, g *kit.Lane) string {
-	var sb strings.Builder
-	for _, it := range items {
-		sb.WriteString(it.Text)
-		sb.WriteString([]string{"\n", "\n\n", " ", "\n% a comment. with dots.\n", "  % c\n"}[g.Choose(5)])
-	}
-	return sb.String()
 }
 
 // ---- model ----
@@ -361,9 +353,11 @@ func c20Gen(r *kit.Run) *c20Scenario {
 	return sc
 }
 
-// c20Damage applies the fault of a load to its item list / text. It returns the delivered text, the items that are
-// complete in it (what a successful load must define) and whether the load must fail.
-func c20Damage(ld *c20Load, g *kit.Lane) (text string, complete []c20Item, mustFail bool, staged bool) {
+// c20Damage applies the fault of a load to its item list. It returns the pieces to deliver (items, possibly one of them
+// malformed, damaged or cut short, in which case nothing follows it), the index of that piece (-1 if none), the items that
+// are complete in the delivered text (what a successful load must define), whether the load must fail and whether clauses
+// of this text precede the fault.
+func c20Damage(ld *c20Load) (pieces []c20Item, damaged int, complete []c20Item, mustFail bool, staged bool) {
 	items := ld.Items
 	countClauses := func(its []c20Item) int {
 		n := 0
@@ -374,9 +368,12 @@ func c20Damage(ld *c20Load, g *kit.Lane) (text string, complete []c20Item, mustF
 		}
 		return n
 	}
+	none := func() ([]c20Item, int, []c20Item, bool, bool) {
+		return items, -1, items, false, false
+	}
 	switch ld.Fault {
 	case "none", "unreadable", "read-error":
-		return c20Render(items, g), items, false, false
+		return none()
 	case "stray", "noncallable":
 		bad := []string{"foo bar.", "p1(1 2).", "p2(a,).", ") .", "p3 :- .", "p4(1, s)) .", "[a|b|c].", "p1(1, s) :- (a."}
 		if ld.Fault == "noncallable" {
@@ -384,9 +381,7 @@ func c20Damage(ld *c20Load, g *kit.Lane) (text string, complete []c20Item, mustF
 		}
 		at := ld.Pos % (len(items) + 1)
 		its := append(append(append([]c20Item(nil), items[:at]...), c20Item{Kind: "bad", Text: bad[ld.Pos/(len(items)+1)%len(bad)]}), items[at:]...)
-		var good []c20Item
-		good = append(good, items...)
-		return c20Render(its, g), good, true, countClauses(items[:at]) > 0
+		return its, at, items, true, countClauses(items[:at]) > 0
 	case "displaced":
 		// move one clause of a predicate that is not declared discontiguous behind a clause of another predicate
 		disc := map[int]bool{}
@@ -403,80 +398,34 @@ func c20Damage(ld *c20Load, g *kit.Lane) (text string, complete []c20Item, mustF
 		}
 		if len(cands) == 0 {
 			ld.Fault = "none"
-			return c20Render(items, g), items, false, false
+			return none()
 		}
 		ci := cands[ld.Pos%len(cands)]
 		c := items[ci]
-		// it must end up separated from the other clauses of its predicate by a clause of another predicate
 		others := 0
 		for i, it := range items {
 			if i != ci && it.Kind == "clause" && it.Pred == c.Pred {
 				others++
 			}
 		}
-		var foreign []int
-		for i, it := range items {
-			if it.Kind == "clause" && it.Pred != c.Pred {
-				foreign = append(foreign, i)
-			}
-		}
-		if others == 0 || len(foreign) == 0 {
-			ld.Fault = "none"
-			return c20Render(items, g), items, false, false
-		}
-		// remove c, then insert it right after a foreign clause that is not adjacent to c's run on the side of the run
 		rest := append(append([]c20Item(nil), items[:ci]...), items[ci+1:]...)
-		// choose a foreign clause such that between it and the remaining run of c.Pred there is that foreign clause
 		var spots []int
 		for i, it := range rest {
 			if it.Kind == "clause" && it.Pred != c.Pred {
-				// inserting after i: is the neighbour on both sides not c.Pred?
-				left := it.Pred != c.Pred
 				right := i+1 >= len(rest) || !(rest[i+1].Kind == "clause" && rest[i+1].Pred == c.Pred)
-				if left && right {
+				if right {
 					spots = append(spots, i)
 				}
 			}
 		}
-		if len(spots) == 0 {
+		if others == 0 || len(spots) == 0 {
 			ld.Fault = "none"
-			return c20Render(items, g), items, false, false
+			return none()
 		}
 		sp := spots[(ld.Pos/len(cands))%len(spots)]
 		its := append(append(append([]c20Item(nil), rest[:sp+1]...), c), rest[sp+1:]...)
-		return c20Render(its, g), its, true, true
-	case "truncate":
-		full := c20Render(items, g)
-		// cut inside the argument list of a clause: find clauses and cut after '(' or after the first ','
-		type span struct{ item, off int }
-		var cuts []span
-		off := 0
-		idx := 0
-		for i, it := range items {
-			p := strings.Index(full[off:], it.Text)
-			if p < 0 {
-				kit.Bug("c20 truncate: item not found")
-			}
-			start := off + p
-			if it.Kind == "clause" {
-				if q := strings.IndexByte(it.Text, '('); q >= 0 {
-					cuts = append(cuts, span{i, start + q + 1})
-				}
-				if q := strings.IndexByte(it.Text, ','); q >= 0 {
-					cuts = append(cuts, span{i, start + q + 1})
-				}
-			}
-			off = start + len(it.Text)
-			idx++
-		}
-		if len(cuts) == 0 {
-			ld.Fault = "none"
-			return full, items, false, false
-		}
-		c := cuts[ld.Pos%len(cuts)]
-		return full[:c.off], items[:c.item], true, countClauses(items[:c.item]) > 0
-	case "damage-paren", "damage-quote":
-		full := c20Render(items, g)
+		return its, -1, its, true, true
+	case "truncate", "damage-paren", "damage-quote":
 		var cl []int
 		for i, it := range items {
 			if it.Kind == "clause" {
@@ -485,24 +434,49 @@ func c20Damage(ld *c20Load, g *kit.Lane) (text string, complete []c20Item, mustF
 		}
 		if len(cl) == 0 {
 			ld.Fault = "none"
-			return full, items, false, false
+			return none()
 		}
 		ci := cl[ld.Pos%len(cl)]
 		it := items[ci]
-		p := strings.Index(full, it.Text)
 		q := strings.IndexByte(it.Text, ',')
-		b := []byte(full)
-		if ld.Fault == "damage-paren" {
-			b[p+q] = ')' // p1(1) s1_1). : two terms in a row, then a stray ')'
-			return string(b), items, true, countClauses(items[:ci]) > 0
+		switch ld.Fault {
+		case "truncate":
+			// a torn write: the text ends inside the argument list of a clause (after '(' or after the first ',')
+			cut := q + 1
+			if (ld.Pos/len(cl))%2 == 0 {
+				cut = strings.IndexByte(it.Text, '(') + 1
+			}
+			its := append(append([]c20Item(nil), items[:ci]...), c20Item{Kind: "partial", Text: it.Text[:cut]})
+			return its, ci, items[:ci], true, countClauses(items[:ci]) > 0
+		case "damage-paren":
+			b := []byte(it.Text)
+			b[q] = ')' // p1(1) s1_1). : two terms in a row, then a stray ')'
+			its := append([]c20Item(nil), items...)
+			its[ci] = c20Item{Kind: "bad", Text: string(b)}
+			return its, ci, items, true, countClauses(items[:ci]) > 0
+		default:
+			b := []byte(it.Text)
+			b[q] = '\'' // an unterminated quoted atom swallows the rest of the text: tail damage, 'must fail' is not asserted
+			its := append([]c20Item(nil), items...)
+			its[ci] = c20Item{Kind: "bad", Text: string(b)}
+			return its, ci, items[:ci], false, countClauses(items[:ci]) > 0
 		}
-		b[p+q] = '\'' // an unterminated quoted atom swallows the rest of the text: tail damage, 'must fail' not asserted
-		var good []c20Item
-		good = append(good, items[:ci]...)
-		return string(b), good, false, countClauses(items[:ci]) > 0
 	}
 	kit.Bug("c20: unknown fault %q", ld.Fault)
-	return "", nil, false, false
+	return nil, -1, nil, false, false
+}
+
+// c20Join renders pieces; a piece cut short ("partial") ends the text.
+func c20Join(pieces []c20Item, g *kit.Lane) string {
+	var sb strings.Builder
+	for _, it := range pieces {
+		sb.WriteString(it.Text)
+		if it.Kind == "partial" {
+			break
+		}
+		sb.WriteString([]string{"\n", "\n\n", " ", "\n% a comment. with dots.\n", "  % c\n"}[g.Choose(5)])
+	}
+	return sb.String()
 }
 
 // ---- execution ----
@@ -551,7 +525,34 @@ func (c20) Exec(r *kit.Run) {
 	staged := false
 	for li := range sc.Loads {
 		ld := &sc.Loads[li]
-		text, complete, mustFail, st := c20Damage(ld, g)
+		pieces, damaged, complete, mustFail, st := c20Damage(ld)
+		text := ""
+		outer := ""
+		if ld.Path == "include" {
+			// the text is split over an including text and the included file; cuts only at run boundaries (an include
+			// directive between two clauses of one predicate would make them non-consecutive), and a piece that swallows
+			// or ends the text stays in the last part
+			var cuts []int
+			for i := 0; i <= len(pieces); i++ {
+				if i > 0 && i < len(pieces) && pieces[i-1].Kind == "clause" && pieces[i].Kind == "clause" && pieces[i-1].Pred == pieces[i].Pred {
+					continue
+				}
+				if damaged >= 0 && (ld.Fault == "truncate" || ld.Fault == "damage-quote") && i > damaged {
+					continue
+				}
+				cuts = append(cuts, i)
+			}
+			c1 := cuts[g.Choose(len(cuts))]
+			c2 := cuts[g.Choose(len(cuts))]
+			if c1 > c2 {
+				c1, c2 = c2, c1
+			}
+			text = c20Join(pieces[c1:c2], g)
+			outer = c20Join(pieces[:c1], g) + ":- include(" + ld.File + ").\n" + c20Join(pieces[c2:], g)
+			ld.Outer = outer
+		} else {
+			text = c20Join(pieces, g)
+		}
 		ld.Text = text
 		before := dump()
 		if before != model.dump() {
@@ -593,7 +594,7 @@ func (c20) Exec(r *kit.Run) {
 			case "list":
 				err = interp.Exec(fmt.Sprintf(":- [%s].", ld.File))
 			case "include":
-				err = interp.Exec(fmt.Sprintf(":- include(%s).", ld.File))
+				err = interp.Exec(outer)
 			case "query-consult":
 				err = interp.QuerySolution(fmt.Sprintf("consult(%s).", ld.File)).Err()
 			}
@@ -644,7 +645,7 @@ func (c20) Exec(r *kit.Run) {
 				r.Fail(class, "db-differs-after-load:"+sig, "load %d (%s, fault %s) returned nil; database is\n  %s\nbut the text defines\n  %s\n  (before the load: %s)\n  text: %q", li, ld.Path, ld.Fault, after, want.dump(), before, text)
 				return
 			}
-			if ld.Fault == "none" && strings.Join(gotNotes, " ") != strings.Join(wantNotes, " ") {
+			if ld.Fault == "none" && !kit.SameList(gotNotes, wantNotes) {
 				r.Fail("directive-order", "notes-differ:"+sig, "load %d (%s): directives / initialization goals reported %v, expected %v\n  text: %q", li, ld.Path, gotNotes, wantNotes, text)
 				return
 			}
